@@ -34,6 +34,12 @@ type Opts struct {
 	OnSim          func(*Sim) func() // called with each new Sim; the returned function is called when the history ends
 }
 
+// forcedOp directs writeOp: kind 0 = Insert, 45 = Delete (see the ranges in writeOp).
+type forcedOp struct {
+	kind int
+	id   []byte
+}
+
 type simTable struct {
 	name      string
 	schema    Schema
@@ -81,6 +87,7 @@ type Sim struct {
 	forceFull bool
 	bias      string // "", "grow", "shrink" (wide schemas)
 	forceSet  []*simTable // table set of the next RunTxn (nested transactions)
+	forced    *forcedOp   // the next RunTxn performs exactly this operation and commits
 	zombies   []statedb.ChangeIterator[*Obj] // iterators created in transactions that aborted (kept reachable, not closed)
 	gcChecks int
 	gcPauses int
@@ -408,7 +415,9 @@ func (s *Sim) guardFor(working *TableModel, cur MObj, exists bool) uint64 {
 func (s *Sim) writeOp(what string, wtxn statedb.WriteTxn, t *simTable, working *TableModel, locked bool) {
 	tbl := t.tbl
 	var id []byte
-	if ex, ok := s.pickExistingID(t, working); ok && (s.Rng.IntN(100) < 55 && s.bias != "grow" || s.bias == "shrink") {
+	if s.forced != nil {
+		id = s.forced.id
+	} else if ex, ok := s.pickExistingID(t, working); ok && (s.Rng.IntN(100) < 55 && s.bias != "grow" || s.bias == "shrink") {
 		id = ex
 	} else {
 		id = s.genID(t.schema)
@@ -420,7 +429,9 @@ func (s *Sim) writeOp(what string, wtxn statedb.WriteTxn, t *simTable, working *
 		return
 	}
 	kind := s.Rng.IntN(100)
-	if t.schema.Wide && s.Rng.IntN(10) < 8 {
+	if s.forced != nil {
+		kind = s.forced.kind
+	} else if t.schema.Wide && s.Rng.IntN(10) < 8 {
 		switch s.bias {
 		case "grow":
 			kind = s.Rng.IntN(42) // Insert / InsertWatch / Modify
@@ -660,6 +671,11 @@ func (s *Sim) RunTxn(i int) {
 	}
 	nops := s.Rng.IntN(s.O.MaxOps + 1)
 	s.bias = []string{"", "grow", "grow", "shrink"}[s.Rng.IntN(4)]
+	if s.forced != nil {
+		// directed single-operation transaction (macro steps)
+		nops = 0
+		s.writeOp(what, wtxn, set[0], working[set[0]], true)
+	}
 	for j := 0; j < nops && !s.Failed; j++ {
 		t := set[s.Rng.IntN(len(set))]
 		if len(set) < len(s.Tabs) && s.Rng.IntN(12) == 0 {
@@ -693,7 +709,7 @@ func (s *Sim) RunTxn(i int) {
 		wtxn.Abort()
 		return
 	}
-	if s.Rng.IntN(100) < s.O.AbortPct {
+	if s.forced == nil && s.Rng.IntN(100) < s.O.AbortPct {
 		s.Logf("%s Abort", what)
 		wtxn.Abort()
 		s.aborts++
